@@ -46,6 +46,9 @@ def expand_spans(text, repo, spans_log):
     def define(m):
         rel, name, a, b = m.group(1), m.group(2), m.group(3).strip(), m.group(4).strip()
         src = open(os.path.join(repo, rel), encoding="utf-8").read()
+        after_begin = a.startswith("@after ")   # span starts right after the begin anchor (anchor text itself excluded)
+        if after_begin:
+            a = a[len("@after "):].strip()
         ra = rs.anchor_regex(a)
         before = b.startswith("@before ")   # span ends right before the anchor (anchor text itself excluded)
         if before:
@@ -54,7 +57,7 @@ def expand_spans(text, repo, spans_log):
         ha = list(ra.finditer(src))
         if len(ha) != 1:
             raise KaniSetupError("span %s: begin anchor `%s` matches %d times in %s" % (name, a, len(ha), rel))
-        s = ha[0].start()
+        s = ha[0].end() if after_begin else ha[0].start()
         if b == "@block_end":
             # up to (not including) the `}` that closes the block containing the begin anchor
             depth, e = 0, None
@@ -69,7 +72,7 @@ def expand_spans(text, repo, spans_log):
             if e is None:
                 raise KaniSetupError("span %s: enclosing block end not found" % name)
         else:
-            hb = [h for h in rb.finditer(src) if h.start() >= ha[0].end()]
+            hb = [h for h in rb.finditer(src) if h.start() >= (ha[0].end() if not after_begin else s)]
             if not hb:
                 raise KaniSetupError("span %s: end anchor `%s` not found after begin in %s" % (name, b, rel))
             e = hb[0].start() if before else hb[0].end()
